@@ -81,13 +81,14 @@ func TestVerif(t *testing.T) {
 			add(rh.RunFixed(t, "fixed:"+n, "keyed", rh.Pools{}, ops, mon, 2))
 		}
 		n := c.N(24, 600)
+		sm := rh.NewStrMaterial(c.Rand.Fork())
 		for i := 0; i < n; i++ {
-			g := rh.NewGen(c.Rand.Fork(), "keyed")
+			g := rh.NewGen(c.Rand.Fork(), "keyed", sm)
 			nm := c.Rand.Pick(20, 60, 60, 120)
 			if c.Thorough() && c.Rand.Chance(1, 10) {
 				nm = 600
 			}
-			add(rh.RunGenerated(t, fmt.Sprintf("gen-%d", i), g, mon, nm, 3))
+			add(rh.RunGenerated(t, fmt.Sprintf("gen-%d", i), g, mon, nm, 2))
 		}
 	}
 	c.WriteCasesV("cases.v", rh.CasesFile(hs))
